@@ -1979,7 +1979,16 @@ class Interp:
         return v
 
     def e_Lambda(self, e, env):
-        return FuncVal(node=e, env=env)
+        fv = FuncVal(node=e, env=env)
+        a_ = e.args
+        pos_ = [x.arg for x in list(getattr(a_, "posonlyargs", [])) + list(a_.args)]
+        fv.default_values = {}
+        for p_, d_ in zip(pos_[len(pos_) - len(a_.defaults):], a_.defaults):
+            fv.default_values[p_] = self.eval(d_, env)  # `lambda i=i: ...` binds now, as in Python
+        for p_, d_ in zip([x.arg for x in a_.kwonlyargs], a_.kw_defaults):
+            if d_ is not None:
+                fv.default_values[p_] = self.eval(d_, env)
+        return fv
 
     def e_IfExp(self, e, env):
         return self.eval(e.body, env) if self.truth(self.eval(e.test, env), e.test) else self.eval(e.orelse, env)
@@ -2028,6 +2037,13 @@ class Interp:
             # keys() / items() views are set-like
             a = self._mkset(a.items) if isinstance(a, DictView) else a
             b = self._mkset(b.items) if isinstance(b, DictView) else b
+        if isinstance(op, ast.BitOr) and isinstance(a, DictVal) and isinstance(b, DictVal):
+            r_ = DictVal()
+            r_.d = dict(a.d)
+            for k_, v_ in b.d.items():
+                hit_ = [k2 for k2 in r_.d if self.equal(k2, k_, node)]
+                r_.d[hit_[0] if hit_ else k_] = v_
+            return r_
         if isinstance(a, SetVal) and isinstance(b, SetVal) and isinstance(op, (ast.BitAnd, ast.BitOr, ast.Sub, ast.BitXor)):
             return self._set_op({ast.BitAnd: "&", ast.BitOr: "|", ast.Sub: "-", ast.BitXor: "^"}[type(op)], a, b)
         if isinstance(op, ast.Pow) and isinstance(a, Lin) and isinstance(b, Lin) and b.is_const() and b.const == Fraction(1, 2):
@@ -2292,21 +2308,34 @@ class Interp:
             c = args[0].const
             import math as _m
             return Lin.num(_m.trunc(c))
-        if n in ("float", "math.fabs"):
+        if n == "math.fabs":
+            v = self.num(args[0], node)
+            return (v if self.sign(v, None, node) >= 0 else v.neg()).as_float()
+        if n == "float":
             v = args[0]
             if isinstance(v, Lin):
                 return v.as_float()
+            if isinstance(v, bool):
+                return Lin.num(int(v)).as_float()
             if isinstance(v, str):
+                import math as _m
                 try:
-                    return Lin.num(Fraction(v)).as_float()
-                except Exception:
+                    f_ = float(v)
+                except ValueError:
                     raise PyRaise("ValueError", node)
+                if _m.isinf(f_) or _m.isnan(f_):
+                    raise Undecided("a non-finite float (%r)" % v)
+                try:
+                    return Lin.num(Fraction(v.strip().replace("_", ""))).as_float()
+                except Exception:
+                    return Lin.num(Fraction(f_)).as_float()
             raise Undecided("float(%r)" % (v,))
         if n == "int":
             v = args[0]
             if isinstance(v, str):
                 try:
-                    return Lin.num(int(v))
+                    base_ = args[1] if len(args) > 1 else kwargs.get("base")
+                    return Lin.num(int(v, self.index(base_)) if base_ is not None else int(v))
                 except ValueError:
                     raise PyRaise("ValueError", node)
             if isinstance(v, Lin) and v.is_const():
@@ -2350,15 +2379,27 @@ class Interp:
         if n == "zip":
             handles = [a if isinstance(a, IterVal) else IterVal(self.iterate(a)) for a in args]
 
+            strict_ = kwargs.get("strict") is True
+
             def zipped():
                 if not handles:
                     return
                 while True:
                     row = []
-                    for h in handles:
+                    for k_, h in enumerate(handles):
                         try:
                             row.append(h.pull())
                         except StopIteration:
+                            if strict_:
+                                # zip(strict=True): every input must end together
+                                if k_ > 0:
+                                    raise PyRaise("ValueError", node)
+                                for h2 in handles[1:]:
+                                    try:
+                                        h2.pull()
+                                    except StopIteration:
+                                        continue
+                                    raise PyRaise("ValueError", node)
                             return
                     yield Tup(row)
             return IterVal(zipped())
